@@ -53,7 +53,8 @@ void bc_call_error(const method_call_error& error, std::size_t arity, type_id* t
     throw Caught{g_call_error};
 }
 std::map<std::string, RunnerBase*>& runners() { static std::map<std::string, RunnerBase*> r; return r; }
-void init_policies();
+void init_part0(); void init_part1(); void init_part2(); void init_part3();
+void init_policies() { init_part0(); init_part1(); init_part2(); init_part3(); }
 }
 
 using namespace h1;
